@@ -1,7 +1,7 @@
 ---------------------------- MODULE JudgeSLD ----------------------------
 (* C13 / C33, flow F-A: the answer sequence the real engine returns for a query on a deterministic program is
    judged against SLD!Answers (Prolog order, duplicates kept).  impl.ok: 1 answers, 2 ProbLog error. *)
-EXTENDS SLD, Json, IOUtils
+EXTENDS Inspect, Json, IOUtils
 Cases == JsonDeserialize(IOEnv.CASES_FILE)
 
 SameSeq(a, b) == Len(a) = Len(b) /\ \A i \in DOMAIN a : Variant(a[i], b[i])
@@ -24,7 +24,8 @@ ListVerdict(e, i) ==
            ELSE "findall-content"
 
 JudgeCase(C) ==
-  LET e == Answers(C.prog, C.q, 400)
+  LET b == IF C.mode = "builtin" THEN Builtin(C.q) ELSE [ sup |-> TRUE, sols |-> << >> ]
+      e == IF C.mode = "builtin" THEN [ ovf |-> ~b.sup, ans |-> b.sols ] ELSE Answers(C.prog, C.q, 400)
       why == IF e.ovf THEN "skip"
              ELSE IF C.impl.ok # 1 THEN "error-instead-of-answers"
              ELSE IF C.mode = "set" THEN (IF SameSet(e.ans, C.impl.ans) THEN "" ELSE "answer-set")
